@@ -12,6 +12,14 @@ NOTE_COMMON = ("Trusted base: go/packages + go/types type-check of /repo's worki
 
 # id -> (technique, level text, level note, design ref)
 CLAIMS = {
+    "C12": (
+        "classification of every send call site (command class x prefix class x helper x recipient class, message literal resolved through locals and nested sends) against a frozen routing table, structural summaries of the six send helpers (range source, single exclusion, single insertion), who-writes of recipient sets and cached prefixes, must-follow updateIrcPrefix, clause/path rules for +n and +G",
+        "Partial: decides that recipients are computed only by the six helpers and that each helper adds exactly its documented set; that every one of the ~200 send sites routes its message class to an entitled recipient class "
+        "(server replies to the causing session or services, relays to the channel minus sender / the looked-up target, JOIN/PART/KICK/TOPIC/MODE to the affected channel, NICK/QUIT to sessions sharing channels, ERROR only to a session being closed); "
+        "that client-reachable code never uses the client-supplied prefix and prefixes are cached-session or server prefixes; that Nick/Username changes refresh the cached prefix; the delivery filters; +n/+G. "
+        "Whether a helper's recipient set equals true membership at that moment is pairing (C14) plus history and is not decided.",
+        NOTE_COMMON,
+        "DESIGN.md section 3, C12"),
     "C14": (
         "paired-update (must-follow / must-precede) analysis over every write to the state maps (channel.nicks, Session.Channels, IRCServer.nicks/channels/sessions) on statement-level CFGs, guard clauses for the old-key removal, door checks by dominating facts, provenance of explicit lcNick/lcChan conversions; the same rules applied to every sibling handler",
         "Partial: decides the inductive step of the state invariants for the code shape — membership is updated on both sides (and empty channels are dropped, created channels get a member, channels are dropped only when empty), "
